@@ -763,7 +763,7 @@ func runC14(c *Ctx) {
 
 	R.Rule("R-field-key", "E8+E4 pairing", "the client renders each option field under the key the server stores it from; NOTIFY separator, RRVS layout and the unitext/xtext choice agree", 10)
 	pairs := []struct{ fn, token, source string }{
-		{"(*Client).Mail", " SIZE=", `^MailOptions\.Size$`},
+		{"(*Client).Mail", " SIZE=", `^(MailOptions\.Size|strconv\.(FormatInt\(MailOptions\.Size,10\)|Itoa\(MailOptions\.Size\)))$`},
 		{"(*Client).Mail", " RET=", `^MailOptions\.Return$`},
 		{"(*Client).Mail", " ENVID=", `^encodeXtext\(MailOptions\.EnvelopeID\)$`},
 		{"(*Client).Mail", " AUTH=", `^encodeXtext\(\*MailOptions\.Auth\)$`},
